@@ -13,7 +13,7 @@ def groups(rng, tier):
             skip.append("skip 3 5 %s #%d" % (pc.hx(pc.nested_groups(5, d) + trail), len(trail)))
 
     def skip_oracle(case, out):
-        if out.startswith("PANIC") or out.startswith("CRASH") or "ORACLE-FAIL" in out:
+        if out.startswith("PANIC") or out.startswith("CRASH") or out.startswith("HANG") or "ORACLE-FAIL" in out:
             return "skip_field: " + out[:200]
         if " #" not in case:
             return None
